@@ -1,3 +1,6 @@
+/-
+  K7 — how every piece of the client changes the callback table (`CbStep`), token counting, id invariant.
+-/
 import Sio.Lemmas.ClientStep
 namespace Sio.Client
 
